@@ -3,7 +3,7 @@ import hashlib, unicodedata
 from harness.core import Case
 from harness.canon import hx, tx
 from harness.props.mnemonic_common import IMPL, BIP39_LANGS, V2_LANGS, V2_TYPES, oracle_for, salt_field, nfkd
-from harness.props.c01 import pre_build, words_of, spec_encode, respell, gen_encode
+from harness.props.c01 import pre_build, words_of, spec_encode, respell, gen_encode, shared_sentences
 from harness.props.c17 import v2_valid_entropy, v2_prefix_phrases
 from bip_utils import (Bip39SeedGenerator, Bip39Languages, ElectrumV1MnemonicEncoder, SubstrateBip39SeedGenerator,
                        ElectrumV2SeedGenerator, ElectrumV1SeedGenerator)
@@ -72,6 +72,113 @@ def gen(rng, tier):
         e = bytes(rng.randrange(256) for _ in range(16))
         s = ElectrumV1MnemonicEncoder().Encode(e).ToStr()
         yield Case("ev1seed", [tx(s if i % 2 else s.upper()), "-"], "ev1seed")
+    # the language argument decides which entropy a sentence has (Substrate: the entropy IS the password) and whether it is valid at all:
+    # sentences valid in list A made only of words list B contains too (at other positions; B's reading checksum-valid or not), with
+    # each language given and auto-detected
+    for n_words in ((12,) if tier == "quick" else (12, 15, 18, 21, 24)):
+        for A, B, ws, _ea, _eb in shared_sentences(rng, lists, n_words, both=(n_words == 12)):
+            sb = " ".join(ws)
+            p = PASSPHRASES[rng.randrange(len(PASSPHRASES))]
+            for l_ in (A, B, "auto"):
+                yield Case("subseed", [l_, tx(sb), oracle_for(sb), salt_field("mnemonic", p)], "subseed-shared-words")
+            yield Case("bip39seed", [B, tx(sb), oracle_for(sb), salt_field("mnemonic", p)], "bip39seed-shared-words")
+
+
+def _pb(password, passphrase, prefix="mnemonic"):
+    return hashlib.pbkdf2_hmac("sha512", password, nfkd(prefix + passphrase).encode("utf-8"), 2048, 64)
+
+
+def _shared_words_language(rng, tier, rep):
+    """'for every valid sentence' is relative to the language the caller names: a sentence valid in list A whose words all occur in list B
+    too (at other positions) has, with A given, A's entropy (Substrate password) and is, with B given, B's reading — another entropy, or
+    not a valid sentence at all.  hashlib reference for every reading; auto-detection may pick either valid reading, nothing else."""
+    lists = {l: words_of(l) for l in BIP39_LANGS}
+    n = 0
+    for n_words in ((12, 24) if tier == "quick" else (12, 15, 18, 21, 24)):
+        for A, B, ws, ea, eb in shared_sentences(rng, lists, n_words, both=(n_words == 12 or tier == "thorough")):
+            base = " ".join(ws)
+            p = PASSPHRASES[rng.randrange(len(PASSPHRASES))]
+            for s in (base, respell(rng, ws)):
+                for gname, G, pw in (("SubstrateBip39SeedGenerator", SubstrateBip39SeedGenerator, lambda e: e), ("Bip39SeedGenerator", Bip39SeedGenerator, lambda e: nfkd(base).encode("utf-8"))):
+                    for lname, e in ((A, ea), (B, eb), (None, None)):
+                        n += 1
+                        try:
+                            got = G(s, Bip39Languages[lname] if lname else None).Generate(p).hex()
+                        except Exception as ex:  # noqa
+                            got = "refused (%s)" % type(ex).__name__
+                        if lname is None:
+                            ok = [_pb(pw(x), p).hex() for x in (ea, eb) if x is not None]
+                            if not got.startswith("refused") and got not in ok:
+                                rep("%s (language auto-detected) yields a seed that belongs to no valid reading of the sentence" % gname, "%r | %r" % (s, p), got, " or ".join(ok) + " or refusal")
+                            continue
+                        want = _pb(pw(e), p).hex() if e is not None else "refused"
+                        if got != want and not (want == "refused" and got.startswith("refused")):
+                            rep("%s(sentence, %s): a sentence valid in %s made of words %s contains too must be read in the language given (%s)" % (
+                                gname, lname, A, B, "its reading there is not checksum-valid: no seed" if e is None else "seed of that reading's definition"),
+                                "%r | %r" % (s, p), got, want)
+    return n
+
+
+def _noncanonical_objects(rng, tier, rep):
+    """a Mnemonic OBJECT is one more spelling of a sentence: the generic container and the plain constructors keep the caller's tokens
+    as they are (upper case, precomposed accents).  Whatever the generator does with such an object — fold it or refuse it — the outcome
+    is the seed of the canonical sentence's definition (hashlib) or no seed; never the PBKDF2 of the raw spelling."""
+    from bip_utils import (Bip39Mnemonic, ElectrumV2Mnemonic, ElectrumV1Mnemonic, ElectrumV2Languages, ElectrumV2MnemonicTypes)
+    from bip_utils.utils.mnemonic import Mnemonic
+    n = 0
+
+    def spellings(ws):
+        out = [[w.upper() for w in ws], [w.capitalize() for w in ws], [unicodedata.normalize("NFC", w) for w in ws],
+               [rng.choice([w.upper(), unicodedata.normalize("NFC", w), w.capitalize(), w]) for w in ws], ws[:-1] + [ws[-1].upper()]]
+        return [o for o in out if o != ws]
+
+    def containers(extra):
+        return [("Mnemonic.FromString", lambda t: Mnemonic.FromString(" ".join(t))), ("Mnemonic.FromList", lambda t: Mnemonic.FromList(list(t))),
+                ("Mnemonic(list)", lambda t: Mnemonic(list(t)))] + extra
+
+    def probe(what, make_gen, toks, want, p, inp):
+        try:
+            got = make_gen().Generate(p).hex() if p is not None else make_gen().Generate().hex()
+        except Exception:  # noqa   refusing the object is fine: no seed
+            return
+        if got != want():
+            rep("%s accepts a Mnemonic object whose words are not in canonical spelling and its seed is not the seed of the sentence "
+                "(a spelling is folded or refused, never hashed as it is)" % what, inp, got, want() + " or refusal")
+
+    for i in range(9 if tier == "quick" else 90):
+        lang = BIP39_LANGS[i % 9]
+        ent = bytes(rng.randrange(256) for _ in range(rng.choice([16, 24, 32])))
+        ws = spec_encode(words_of(lang), ent)
+        p = PASSPHRASES[rng.randrange(len(PASSPHRASES))]
+        for toks in spellings(ws):
+            for cname, mk in containers([("Bip39Mnemonic(list)", lambda t: Bip39Mnemonic(list(t))), ("Bip39Mnemonic.FromList", lambda t: Bip39Mnemonic.FromList(list(t)))]):
+                for lg in (Bip39Languages[lang], None):
+                    n += 2
+                    inp = "%s | %s of %r | language %s | passphrase %r" % (lang, cname, toks, lg.name if lg else "auto-detected", p)
+                    probe("Bip39SeedGenerator", lambda: Bip39SeedGenerator(mk(toks), lg), toks, lambda: _pb(nfkd(" ".join(ws)).encode("utf-8"), p).hex(), p, inp)
+                    if lg is not None:
+                        probe("SubstrateBip39SeedGenerator", lambda: SubstrateBip39SeedGenerator(mk(toks), lg), toks, lambda: _pb(ent, p).hex(), p, inp)
+    # Electrum: the reference is the generator's own answer for the canonical string (tied to the definition by the correspondence cases)
+    for i in range(2 if tier == "quick" else 16):
+        t, lang = V2_TYPES[0 if tier == "quick" else i % 4], ("ENGLISH", "SPANISH", "PORTUGUESE")[i % 3]      # (the 3-digit prefixes take thousands of attempts)
+        e2, s2 = v2_valid_entropy(rng, (132, 264)[i % 2], t, lang)
+        if s2 is None:
+            continue
+        ws = s2.split(" ")
+        want = ElectrumV2SeedGenerator(s2, ElectrumV2Languages[lang]).Generate("pw").hex()
+        for toks in spellings(ws):
+            for cname, mk in containers([("ElectrumV2Mnemonic(list)", lambda t: ElectrumV2Mnemonic(list(t)))]):
+                for lg in (ElectrumV2Languages[lang], None):
+                    n += 1
+                    probe("ElectrumV2SeedGenerator", lambda: ElectrumV2SeedGenerator(mk(toks), lg), toks, lambda: want, "pw",
+                          "%s %s | %s of %r | language %s" % (lang, t, cname, toks, lg.name if lg else "auto-detected"))
+    ws = ElectrumV1MnemonicEncoder().Encode(bytes(rng.randrange(256) for _ in range(16))).ToList()
+    want = ElectrumV1SeedGenerator(" ".join(ws)).Generate().hex()
+    for toks in spellings(ws)[: 2 if tier == "quick" else 5]:
+        for cname, mk in containers([("ElectrumV1Mnemonic(list)", lambda t: ElectrumV1Mnemonic(list(t)))]):
+            n += 1
+            probe("ElectrumV1SeedGenerator", lambda: ElectrumV1SeedGenerator(mk(toks)), toks, lambda: want, None, "%s of %r" % (cname, toks))
+    return n
 
 
 def relations(rng, tier, rpt):
@@ -229,6 +336,8 @@ def relations(rng, tier, rpt):
                     if key in first and first[key] != (got, sub):
                         rep("seed generators answer differently for the same (sentence, passphrase) after a sentence of another language was processed", sent, str((got[:16], sub[:16])), str((first[key][0][:16], first[key][1][:16])))
                     first.setdefault(key, (got, sub))
+    rpt.extra["shared_word_language_checks"] = _shared_words_language(rng, tier, rep)
+    rpt.extra["noncanonical_object_checks"] = _noncanonical_objects(rng, tier, rep)
     rpt.extra["history_checks"] = nh
     rpt.extra["argument_form_checks"] = nf
     rpt.extra["impl_relation_checks"] = n
